@@ -70,6 +70,9 @@ static InvocationResult invoke_main(const InvocationOpts& o) {
 #else
   args.push_back("-j"); args.push_back(num(o.run.parallelism));
 #endif
+#ifdef LOAD_LIMIT
+  args.push_back("-l"); args.push_back(num(LOAD_LIMIT));
+#endif
   args.push_back("-k"); args.push_back(num(o.failures_allowed >= 1000000 ? 0 : o.failures_allowed));
   if (o.dry_run) args.push_back("-n");
   args.insert(args.end(), o.targets.begin(), o.targets.end());
